@@ -148,8 +148,8 @@ PROPS = {
         "assumptions": PURE_ASSUME,
     },
     "C15": {
-        "stages": [pure(15, 240), asan_pure(120), miri(600)],
-        "rule": "exhaustive totality over all strings of length <= 9 (quick) / 10 (thorough) over {a, space, ':', backslash, newline}; structured depfiles of 1-6 `target: prerequisites` entries rendered with 0-3 spaces before the colon, spaces and/or backslash-newline continuations with indentation between prerequisites, blank lines, trailing spaces, optional final newline, Windows-style C:/x\\y names, entries without prerequisites, repeated targets; read through n2's real depfile reader from a file and compared with the listed prerequisites in order (repeated targets: grouped under the first occurrence); missing depfile = empty; malformed content must fail with a parse error naming the depfile; non-trivial = >= 2 entries or a continuation",
+        "stages": [pure(15, 240), asan_pure(120), miri(600), sim(8, 150), real(8, 150)],
+        "rule": "exhaustive totality over all strings of length <= 9 (quick) / 10 (thorough) over {a, space, ':', backslash, newline}; structured depfiles of 1-6 `target: prerequisites` entries rendered with 0-3 spaces before the colon, spaces and/or backslash-newline continuations with indentation between prerequisites, blank lines, trailing spaces, optional final newline, Windows-style C:/x\\y names, entries without prerequisites, repeated targets; read through n2's real depfile reader from a file and compared with the listed prerequisites in order (repeated targets: grouped under the first occurrence); missing depfile = empty; malformed content must fail with a parse error naming the depfile; non-trivial = >= 2 entries or a continuation; end to end: E1 histories in which the reported list grows, shrinks to nothing or changes spelling (C09 workload: what is recorded must be exactly the last report), and E2 histories with real depfiles written by the commands (continuations, optional final newline, sometimes no depfile at all when nothing is to be reported)",
         "must_observe": ["exhaustive_inputs", "structured_inputs", "missing_depfile_checks", "malformed_rejected"],
         "assumptions": PURE_ASSUME,
     },
